@@ -412,6 +412,15 @@ def dm16(ctx, rule="R-DM16-PREFIX", rule_thr="R-DM16-THRESH"):
         except AnalysisError as ex:
             ctx.unknown(rule_thr, "%s: %s" % (f.qual, ex))
             return
+        if not ok:
+            # a condition computed from the payload in some other way (e.g. the length of the assembled frame) is not decided here;
+            # a condition that does not depend on the payload at all is wrong
+            def direct(a):
+                return a[0] == "cmp" and ((a[2] == n and is_const(a[3])) or (a[3] == n and is_const(a[2])))
+            derived = [a for g, _ in r.guards() for a in G.atoms(g) if not direct(a) and contains(a, field("data"))]
+            if derived:
+                ctx.unknown(rule_thr, "%s: end-of-message hook condition %s is derived from the payload in a form that is not decided" % (f.qual, pretty(derived[0])[:80]))
+                return
         res.append((bool(hook), ok, cex, (hook[0].node if hook else f.node)))
     inst = "%s._send_dm16 waits for the transport's end-of-message iff the DM16 has more than 7 data bytes" % S
     if not res:
@@ -1155,6 +1164,7 @@ def seed_any(ctx, rule="R-SEED-ANY"):
         return G.renorm(G.subst(s, fn2))
 
     key_pcs, n = [], 0
+    seed_exprs = []
     node = f.node
     for r in runs(ctx, f):
         for i, e in r.effects():
@@ -1163,8 +1173,10 @@ def seed_any(ctx, rule="R-SEED-ANY"):
                 n += 1
                 node = e.node
                 arg = e.value[2][0][2]
-                if not arg or not all(any(b == x for x in walk(arg[0])) for b in seedbytes):
-                    ctx.violated(rule, f, "key computed from the received seed", "the key algorithm is applied to %s, not to the 16-bit seed in bytes 7..8 of the DM15" % (
+                if arg:
+                    seed_exprs.append(arg[0])
+                if not arg or not contains(arg[0], ("p", "data")):
+                    ctx.violated(rule, f, "key computed from the received seed", "the key algorithm is applied to %s, which is not taken from the received DM15" % (
                         pretty(arg[0])[:60] if arg else "nothing"), e.node)
                     return
                 key_pcs.append(pin(G.conj(r.guards(i))))
@@ -1174,7 +1186,7 @@ def seed_any(ctx, rule="R-SEED-ANY"):
         return
     phi = G.disj(key_pcs)
     ats = sorted(G.atoms(phi), key=repr)
-    seed_atoms = [a for a in ats if any(contains(a, b) for b in seedbytes)]
+    seed_atoms = [a for a in ats if any(contains(a, b) for b in seedbytes) or any(contains(a, pin(x)) or contains(a, x) for x in seed_exprs)]
     inst = "the key is sent for every 16-bit seed of a seed response (length byte 0)"
     if not seed_atoms:
         ctx.holds(rule, inst)
